@@ -143,3 +143,31 @@ package points
 //@   ensures choice == 0 ==> p.X == old(z.X) && p.Y == old(z.Y) && p.Z == old(z.Z) && p.T == old(z.T)
 //@   ensures choice == 1 ==> p.X == old(nz.X) && p.Y == old(nz.Y) && p.Z == old(nz.Z) && p.T == old(nz.T)
 
+
+// ---------------------------------------------------------------- decoding helpers (C13): accepted => on the curve
+// onCurveAff(x, y): y^2 == x^3 + a x + b
+//@ pure func onCurveAff(x Int, y Int) bool = y*y == x*x*x + cpA()*x + cpB()
+
+//@ func (*ShortWeierstrassPointImpl).SetAffine
+//@   property C13
+//@   bind FP ringptr, F ringint, C curveparams
+//@   ensures (ok == 1) == onCurveAff(old(*x), old(*y))
+//@   ensures ok == 1 ==> p.X == old(*x) && p.Y == old(*y) && p.Z == 1
+//@   ensures ok == 0 ==> p.X == old(p.X) && p.Y == old(p.Y) && p.Z == old(p.Z)
+//@   ensures ok == 0 || ok == 1
+
+//@ func (*ShortWeierstrassPointImpl).SetFromAffineX
+//@   property C13
+//@   bind FP ringptr, F ringint, C curveparams
+//@   ensures ok == 1 ==> p.X == old(*x) && p.Z == 1 && onCurveAff(p.X, p.Y)
+//@   ensures ok == 0 ==> p.X == old(p.X) && p.Y == old(p.Y) && p.Z == old(p.Z)
+//@   ensures ok == 0 || ok == 1
+
+//@ func (*ShortWeierstrassPointImpl).ToAffine
+//@   property C13
+//@   bind FP ringptr, F ringint, C curveparams
+//@   requires xOut != yOut
+//@   ensures (ok == 1) == (p.Z != 0)
+//@   ensures ok == 1 ==> *xOut * p.Z == p.X && *yOut * p.Z == p.Y
+//@   ensures ok == 0 ==> *xOut == old(*xOut) && *yOut == old(*yOut)
+//@   ensures p.X == old(p.X) && p.Y == old(p.Y) && p.Z == old(p.Z)
